@@ -27,3 +27,13 @@ package mathx
 //@   flag nolock
 //@   ensures implies(truth, proba > 0.0) && implies(proba >= 1.0, truth)
 //@   modifies nothing
+
+// C06 expiry jitter: AroundDuration(base) lies within (1-deviation, 1+deviation] of base (minus the truncation to whole nanoseconds).
+//@ spec devOf(u Unstable) float64 = u.deviation
+//@ func (u Unstable) AroundDuration
+//@   property C06
+//@   float real
+//@   flag nolock
+//@   requires 0.0 <= u.deviation && u.deviation <= 1.0 && base >= 0
+//@   ensures  real(result) <= (1.0+u.deviation)*real(base) && real(result) > (1.0-u.deviation)*real(base) - 1.0 && result >= 0
+//@   modifies nothing
